@@ -1,6 +1,6 @@
 (* C14 -- a patch touches only the target's entry bytes and leaves pages read+execute.
    Statements are about PageStart / the mProtectCrossPage loop / the WriteTo step order REGENERATED from the source. *)
-From Goom Require Import Base.MachineInt Model.WriteTo Model.JumpEnc Proofs.WriteToProofs Tie.PageTie Tie.JumpTie.
+From Goom Require Import Base.MachineInt Model.WriteTo Model.JumpEnc Proofs.WriteToProofs Tie.PageTie Tie.JumpTie Model.FuncSize Proofs.FuncSizeProofs.
 From Goom Require Gen.Page Gen.JumpAmd64.
 Open Scope Z_scope.
 
@@ -81,3 +81,25 @@ Example C14_nonvacuous :
   map (bytes (run_steps m0 (gen_steps 4096 8190 d))) [8189; 8190; 8202; 8203] = [204; 1; 13; 204] /\
   length (gen_steps 4096 8190 d) = 5%nat.
 Proof. vm_compute. repeat split. Qed.
+
+(* ---- the extent scan and the refusal of short functions (GetFuncSize / genJumpData over the decoder's report) ---- *)
+(* the scan reports exactly the function's own instructions plus the INT3 padding behind them: it never includes a byte
+   of the first real instruction behind the padding, nor anything behind a prologue match or an undecodable position *)
+Theorem C14_extent_exact : forall s, func_size s = body_len s + pad_len (after_body s).
+Proof. exact func_size_exact. Qed.
+Print Assumptions C14_extent_exact.
+
+(* so an accepted patch writes its 13 bytes inside [entry, entry + body + padding); a function (with its padding) shorter
+   than the jump is refused, and so is one whose entry the decoder does not know *)
+Theorem C14_accepted_jump_inside : forall s, accepts s = true -> jump_len <= body_len s + pad_len (after_body s).
+Proof. exact accepted_jump_inside. Qed.
+Theorem C14_too_short_refused : forall s, body_len s + pad_len (after_body s) < jump_len -> accepts s = false.
+Proof. exact too_short_refused. Qed.
+Theorem C14_undecodable_entry_refused : forall r, accepts (IStop :: r) = false.
+Proof. exact undecodable_entry_refused. Qed.
+
+Example C14_extent_nonvacuous :
+  func_size [IOrd 3 false; IOrd 5 false; IOrd 1 false; IInt3 false; IInt3 false; IOrd 4 false; IOrd 2 false] = 11 /\
+  accepts [IOrd 3 false; IOrd 5 false; IOrd 1 false; IInt3 false; IInt3 false; IOrd 4 false] = false /\
+  accepts [IOrd 7 false; IOrd 5 false; IOrd 1 true; IOrd 9 false] = true.
+Proof. vm_compute. repeat split; reflexivity. Qed.
